@@ -35,3 +35,16 @@ func VerifSVGOptionsImmutable(n int) {
 }
 
 func verifOptM() *minify.M { return minify.New() }
+
+// VerifSVGSharedState (C13): one call with symbolic options, with or without the inline parameter, on a shared option
+// struct and a shared *minify.M, under the write-set monitor: no store to memory that existed before the call.
+func VerifSVGSharedState(n int) {
+	o := &Minifier{KeepComments: vBool("a"), Inline: vBool("b"), Precision: vChoice("p", 3)}
+	m := verifOptM()
+	var params map[string]string
+	if vBool("inlineparam") {
+		params = map[string]string{"inline": "1"}
+	}
+	in := verifSharedInput(n, verifSVGDocs)
+	verifNoSharedWrite(in, func(w *vWriter, r *vReader) error { return o.Minify(m, w, r, params) })
+}
